@@ -46,6 +46,17 @@ const (
 	// which count as "the reader makes no progress".
 	noProgressLimit = 10000
 
+	// progPassLimit is jpeg.maxProgPasses (internal/filter/dct/jpeg/scan.go):
+	// "bounds how many times the progressive scan loop may revisit the
+	// coefficient buffer in total, summed over every SOS. [...] a tiny
+	// multi-scan stream could otherwise drive (scans x blocks) buffer
+	// traversals - work unbounded by the per-stream memory budget [...] the
+	// limit leaves generous headroom while keeping decode work proportional
+	// to the input."  A single-component progressive JPEG in which more than
+	// this many scans each visit every block must therefore be rejected; the
+	// rule counts work, not time.
+	progPassLimit = 64
+
 	// slowBudget marks a case as slow (counted, never a violation).
 	slowBudget = 5 * time.Second
 )
@@ -85,6 +96,11 @@ type Case struct {
 	// the decoder agree, i.e. that the full-table streams are valid ones.
 	ExpectOut int `json:"expect_out,omitempty"`
 
+	// ProgScans is set for progressive JPEGs from the harness's own builder:
+	// the number of scans which each visit every block of the (single)
+	// component.  It drives the work oracle (see progPassLimit).
+	ProgScans int `json:"prog_scans,omitempty"`
+
 	obs observation
 }
 
@@ -110,6 +126,7 @@ type observation struct {
 	stage2     int
 	elapsed    time.Duration
 	dElapsed   time.Duration
+	pulled     int64 // bytes a buffering top layer pulled from the layer below (-1: not measured)
 	totalAlloc uint64
 }
 
@@ -452,6 +469,126 @@ func runDirect(c *Case, name pdf.Name, pd pdf.Dict, raw []byte, limit int64) (ru
 	return res, consume(c, r, limit, &res)
 }
 
+// pullSlack is what a buffering consumer may read beyond the budget: the one
+// probe byte FilterJBIG2.Decode reads to tell truncation from exhaustion, and
+// room for a read-ahead buffer.
+const pullSlack = 64<<10 + 1
+
+// layeredChain reports whether the case is a clean chain (direct names and
+// direct dictionaries or null, no references, 2..8 elements) whose top layer
+// is JBIG2Decode, and returns its elements.
+func (c *Case) layeredChain() ([]pdf.Name, []pdf.Dict, bool) {
+	if c.Filter.T != "arr" || len(c.Filter.A) < 2 || len(c.Filter.A) > maxChain {
+		return nil, nil, false
+	}
+	if c.Parms.T != "null" && c.Parms.T != "" && c.Parms.T != "arr" {
+		return nil, nil, false
+	}
+	var names []pdf.Name
+	var dicts []pdf.Dict
+	for i, e := range c.Filter.A {
+		if e.T != "name" {
+			return nil, nil, false
+		}
+		names = append(names, pdf.Name(e.S))
+		var d pdf.Dict
+		if c.Parms.T == "arr" && i < len(c.Parms.A) {
+			switch p := c.Parms.A[i]; p.T {
+			case "null", "":
+			case "dict":
+				d, _ = toPDF(p).(pdf.Dict)
+			default:
+				return nil, nil, false
+			}
+		}
+		dicts = append(dicts, d)
+	}
+	for _, n := range names[:len(names)-1] {
+		if n == "Crypt" {
+			return nil, nil, false
+		}
+	}
+	return names, dicts, names[len(names)-1] == "JBIG2Decode"
+}
+
+type countingReader struct {
+	r io.Reader
+	n *int64
+}
+
+func (c countingReader) Read(p []byte) (int, error) {
+	n, err := c.r.Read(p)
+	*c.n += int64(n)
+	return n, err
+}
+
+// runLayered is oracle 9.  It builds the chain the way pdf.DecodeStream does
+// (MakeFilter per element, one shared membudget.Budget sized by
+// limits.StreamBudget(len(raw))) with a counting reader under the top layer.
+//
+// The top layer is JBIG2Decode, which buffers its complete input before it
+// decodes.  Its documentation promises that this buffer stays inside the
+// budget: filter.go, FilterJBIG2.Decode: "Cap the read at the lesser of the
+// budget's current headroom and the JBIG2-specific size limit, so a tight
+// budget cannot be drained by allocating the full 64 MiB before the charge
+// fails."; Filter.Decode: "Working-memory allocations made by the filter are
+// charged against budget; an exhausted budget causes the decode to fail";
+// limits.MaxJBIG2PageBytes: "The jbig2 decoder applies its own internal
+// budget on bitmap allocations; this cap bounds only the raw input buffer."
+// Everything pulled is buffered, so the bytes pulled from the layer below are
+// bounded by the budget of the stream (plus pullSlack), whatever the result.
+// Streaming consumers (DCT, CCITTFax, Flate, ...) make no such promise and
+// are not measured.
+func runLayered(c *Case, names []pdf.Name, dicts []pdf.Dict, raw []byte, pulled *int64) (runResult, error) {
+	var res runResult
+	*pulled = 0
+	v := pdf.Version(c.Ver)
+	if v < pdf.V1_0 || v > pdf.V2_0 {
+		v = pdf.V1_7
+	}
+	budget := membudget.New(limits.StreamBudget(int64(len(raw))))
+	var out io.Reader = bytes.NewReader(raw)
+	var closers []io.Closer
+	closeAll := func() {
+		for i := len(closers) - 1; i >= 0; i-- {
+			_ = closers[i].Close()
+		}
+	}
+	for i, n := range names {
+		f, err := pdf.MakeFilter(n, dicts[i])
+		if err != nil {
+			res.openErr = err
+			closeAll()
+			return res, nil
+		}
+		if i == len(names)-1 {
+			out = countingReader{r: out, n: pulled}
+		}
+		rc, err := f.Decode(v, out, budget)
+		if err != nil {
+			res.openErr = err
+			closeAll()
+			return res, nil
+		}
+		closers = append(closers, rc)
+		out = rc
+	}
+	top := closers[len(closers)-1].(io.ReadCloser)
+	closers = closers[:len(closers)-1]
+	err := consume(c, top, drainCap, &res)
+	closeAll()
+	return res, err
+}
+
+func firstErr(errs ...error) error {
+	for _, e := range errs {
+		if e != nil {
+			return e
+		}
+	}
+	return nil
+}
+
 // measured runs f under the panic guard, the watchdog, the goroutine oracle
 // and the allocation counter.
 func measured(c *Case, what string, f func() (runResult, error)) (res runResult, alloc uint64, elapsed time.Duration, err error) {
@@ -501,7 +638,11 @@ func classifyErr(what string, err error) error {
 //     ending in CCITTFax (1 bit per pixel) at most MaxImagePixels/8 +
 //     MaxImageHeight bytes (see imageBound);
 //  6. allocation tripwires, confirmed by a peak-live-heap measurement;
-//  7. a /Filter array longer than the documented cap of 8 is rejected.
+//  7. a /Filter array longer than the documented cap of 8 is rejected;
+//  8. a progressive JPEG with more full passes than jpeg.maxProgPasses is
+//     rejected (work bound, independent of the clock; see progPassLimit);
+//  9. JBIG2Decode, which buffers its input, pulls at most the stream budget
+//     from the layer below (see runLayered).
 func checkCase(c *Case) error {
 	journal(c)
 	c.analyse()
@@ -547,6 +688,33 @@ func checkCase(c *Case) error {
 		return fmt.Errorf("chain ending in %s produced more than %d bytes (%s) from %d bytes of input",
 			lastName, imageBound(lastName), boundName(lastName), len(raw))
 	}
+	// oracle 8 (work): more complete passes over a progressive JPEG than
+	// the documented limit must end in a (malformed) error
+	progOracle := c.ProgScans > progPassLimit+1 && c.Mode == 0 && !ob.hostileF && len(ob.names) == 1 && ob.names[0] == "DCTDecode"
+	if progOracle && res.openErr == nil && res.readErr == nil {
+		return fmt.Errorf("progressive JPEG of %d bytes with %d scans over every block decoded to the end (%d bytes): the documented limit is %d passes over the coefficient buffer (jpeg.maxProgPasses), so decode work is not bounded by the input",
+			len(raw), c.ProgScans, res.out, progPassLimit)
+	}
+
+	// oracle 9 (buffering consumer): see runLayered
+	ob.pulled = -1
+	if names, dicts, ok := c.layeredChain(); ok {
+		lres, _, _, err := measured(c, "layered chain", func() (runResult, error) { return runLayered(c, names, dicts, raw, &ob.pulled) })
+		if err != nil {
+			return err
+		}
+		if err := classifyErr("layered chain", lres.openErr); err != nil {
+			return err
+		}
+		if err := classifyErr("layered chain: Read", lres.readErr); err != nil {
+			return err
+		}
+		if bound := limits.StreamBudget(int64(len(raw))) + pullSlack; ob.pulled > bound {
+			return fmt.Errorf("JBIG2Decode on top of %v pulled %d bytes from the layer below for a stream of %d raw bytes: it buffers its whole input, the stream budget is %d bytes (result: %v)",
+				names[:len(names)-1], ob.pulled, len(raw), limits.StreamBudget(int64(len(raw))), firstErr(lres.openErr, lres.readErr))
+		}
+	}
+
 	// oracle 6 for the chain: every stream involved has its own budget; a
 	// globals stream may be decoded once per chain element
 	var objBudget, objIn int64
@@ -594,6 +762,10 @@ func checkCase(c *Case) error {
 	}
 	if imageFilters[string(name)] && c.Origin != "fuzz" && dres.out > imageBound(string(name)) {
 		return fmt.Errorf("%s produced more than %d bytes (%s) from %d bytes of input", what, imageBound(string(name)), boundName(string(name)), len(raw))
+	}
+	if c.ProgScans > progPassLimit+1 && c.Mode == 0 && name == "DCTDecode" && dres.openErr == nil && dres.readErr == nil {
+		return fmt.Errorf("%s: progressive JPEG of %d bytes with %d scans over every block decoded to the end: the documented limit is %d passes (jpeg.maxProgPasses)",
+			what, len(raw), c.ProgScans, progPassLimit)
 	}
 	// a single filter reading the raw bytes: its working memory is what the
 	// budget accounts for; 2 MiB for decoder state that is not charged
@@ -771,6 +943,25 @@ func classify(c *Case) (bool, []string) {
 			if p := c.Body[sof+4]; p != 8 {
 				add("jpeg-precision!=8")
 			}
+		}
+	}
+	if c.ProgScans > 0 {
+		switch {
+		case strings.Contains(ob.readErr+ob.openErr, "excessive progressive"):
+			add("prog-scans-rejected-by-pass-limit")
+		case ob.readErr != "" || ob.openErr != "":
+			add("prog-scans-rejected-otherwise")
+		case ob.eof:
+			add("prog-scans-decoded")
+		}
+		if c.ProgScans > progPassLimit+1 {
+			add("prog-scans>limit")
+		}
+	}
+	if ob.pulled >= 0 {
+		add("layered-jbig2")
+		if ob.pulled >= 1<<20 {
+			add("layered-jbig2-pulled>=1MiB")
 		}
 	}
 	if c.ExpectOut > 0 && ob.eof && ob.out == int64(c.ExpectOut) {
